@@ -178,19 +178,7 @@ public:
 
   static void dr_expinv(TRefIn a_in, TMapRefOut A_out)
   {
-    using std::sin, std::cos;
-
-    const Scalar th  = a_in.z();
-    const Scalar th2 = th * th;
-
-    const auto A = [&]() -> Scalar {
-      if (th2 < Scalar(eps2)) {
-        // https://www.wolframalpha.com/input/?i=series+1%2Fx%5E2+-+%281+%2B+cos+x%29+%2F+%282+*+x+*+sin+x%29+at+x%3D0
-        return Scalar(1) / Scalar(12) + th2 / Scalar(720);
-      } else {
-        return (Scalar(1) / th2) - (Scalar(1) + cos(th)) / (Scalar(2) * th * sin(th));
-      }
-    }();
+    const Scalar A = detail::dexpinv_coef<Scalar>(a_in.z() * a_in.z());
 
     Eigen::Matrix3<Scalar> ad_a;
     ad(a_in, ad_a);
